@@ -1106,10 +1106,14 @@ class Gen(object):
         return [r.choice(BIN)] + [m.name] + call[1:] if r.random() < 0.5 else [r.choice(BIN)] + call
 
 
+PROB = {"objlike": 0.6, "fnlike": 0.6, "self_ref": 0.15, "mutual_ref": 0.15, "lit_names": 0.25, "cmdline": 0.25,
+        "push_pop": 0.25, "undef_redef": 0.3}
+
+
 def make_flags(rng, forced=None):
     """Each feature flag is on with probability 1/2, plus `forced` (the runner forces each flag on in turn so
     that every flag is on in at least 1/8 of the programs... in fact far more)."""
-    fl = {f: rng.random() < 0.5 for f in FLAGS}
+    fl = {f: rng.random() < PROB.get(f, 0.4) for f in FLAGS}
     if not (fl["objlike"] or fl["fnlike"] or fl["variadic"]):
         fl[rng.choice(["objlike", "fnlike", "variadic"])] = True
     if fl["va_opt"]:
